@@ -129,7 +129,7 @@ def lemma_delete_equals_empty_assign(rep):
 def main():
     rep = Report("C05", "other")
     thorough = common.tier() == "thorough"
-    ps = progs.corpus(big=True, include_fail=True) + gen.generated_programs(1500 if thorough else 150, common.seed())
+    ps = progs.corpus(big=True, include_fail=True) + gen.generated_programs(1500 if thorough else 200, common.seed())
     variants = VARIANTS_THOROUGH if thorough else VARIANTS_QUICK
     _CTX.clear()
     _CTX.update(programs=ps, variants=variants)
